@@ -71,3 +71,32 @@ class mentions_c:
 
     def hint_raise_TypeError(profile, _k):
         return all_ranked_ne_prefix(profile.ballots, _k + 1, len(profile.ballots))
+
+
+@contract("utils.py", "add_missing_cands", props=("C04", "C12"), unfold=3)
+class add_missing_cands_c:
+    """the candidate set is kept; for every ranking k the result carries exactly the weight of the input ballots whose ranking,
+    with the unlisted candidates appended as one last tied position, is k (condensed); TypeError exactly when a ballot has no
+    (non-empty) ranking"""
+    params = dict(profile=Profile)
+    returns = Profile
+    forall = dict(k=Seq(CSet))
+    locals = dict(new_ballots=Seq(Ballot, "list"), candidates=CSet)
+
+    def raises_TypeError(profile):
+        return not all_ranked(profile.ballots, len(profile.ballots))
+
+    def ensures(profile, result, k):
+        return (implies(len(profile.candidates) > 0, frozenset(result.candidates) == frozenset(profile.candidates))
+                and wrank(result.ballots, len(result.ballots), k)
+                == wrank(amc_prefix(profile.ballots, len(profile.ballots), frozenset(profile.candidates)), len(profile.ballots), k))
+
+    def invariant_0(profile, new_ballots, candidates, _k):
+        return (len(new_ballots) == len(profile.ballots) and all_ranked(profile.ballots, _k)
+                and new_ballots[:_k] == list(amc_prefix(profile.ballots, _k, candidates)))
+
+    def hint_return(profile, candidates):
+        return amc_prefix_len(profile.ballots, len(profile.ballots), candidates)
+
+    def hint_raise_TypeError(profile, _k):
+        return all_ranked_prefix(profile.ballots, _k + 1, len(profile.ballots))
